@@ -28,7 +28,8 @@ MANIFEST = {
              "[floor(f - r|a*|), ceil(f + r|a*|)] (Cauchy-Schwarz + floor/ceil), and 1/|a| <= |a*| (why the original r/|a| box lost atoms on oblique cells). "
              "Over ℤ for the model's own slab: the cells of the box are visited exactly once in any |h|-ordering, every (atom, cell) pair is one row, and "
              "filtering by distance returns exactly the images within the radius, without duplicates, whenever the box covers them. Hand model tied by "
-             "correspondence (cells, boxes, returned rows) and a brute-force periodic oracle on the real code for all four query kinds."),
+             "correspondence (cells, boxes, returned rows) and a brute-force periodic oracle on the real code for all four query kinds."
+             " For queries about several centre atoms (molecule, atom group, all sites) the accumulated block is sufficient (accumulated_box_sufficient) and no block that omits an extreme layer can be right (box_necessary_lo/hi); the block the real code passes to slab() is checked against exactly that."),
     "note": ("Trusted: Lean kernel + Mathlib; the Float part of the model is mirrored, not shared, with the ℝ statements; KD-tree semantics; a_star = |a*| (C12); "
              "margin of 1e-6 around the sphere."),
     "technique": "Lean 4 proof (real geometry + list combinatorics over the model's definitions) + correspondence + brute-force periodic oracle",
